@@ -8,7 +8,7 @@ git -C /repo worktree remove --force "$WT" 2>/dev/null; rm -rf "$WT"
 git -C /repo worktree add -q --detach "$WT" HEAD || exit 2
 cd "$WT"
 lc=$(echo "$ID" | tr 'A-Z-' 'a-z_')
-demo_dir=rspirv/tests; pkg=rspirv; case "$ID" in C20-*) (cd "$WT" && CARGO_NET_OFFLINE=true cargo build --offline -p rspirv-dis >/dev/null 2>&1);; esac
+demo_dir=rspirv/tests; pkg=rspirv; DIS=no; grep -q "^diff --git a/dis/" "$SD/patch.diff" && DIS=yes; [ $DIS = yes ] && (cd "$WT" && CARGO_NET_OFFLINE=true cargo build --offline -p rspirv-dis >/dev/null 2>&1)
 cp "$SD/demo.rs" $demo_dir/demo_$lc.rs
 CARGO_NET_OFFLINE=true cargo test --offline -p $pkg --test demo_$lc >/tmp/confirm-$ID.clean.log 2>&1; clean_rc=$?
 rm $demo_dir/demo_$lc.rs
@@ -16,7 +16,7 @@ if ! git apply "$SD/patch.diff" 2>/tmp/confirm-$ID.apply.log; then applied=false
 CARGO_NET_OFFLINE=true cargo test --workspace --no-fail-fast --offline >/tmp/confirm-$ID.suite.log 2>&1; suite_rc=$?
 passed=$(grep -E "^test result" /tmp/confirm-$ID.suite.log | awk '{s+=$4} END {print s+0}')
 cp "$SD/demo.rs" $demo_dir/demo_$lc.rs
-case "$ID" in C20-*) CARGO_NET_OFFLINE=true cargo build --offline -p rspirv-dis >/dev/null 2>&1;; esac
+[ $DIS = yes ] && CARGO_NET_OFFLINE=true cargo build --offline -p rspirv-dis >/dev/null 2>&1
 CARGO_NET_OFFLINE=true cargo test --offline -p $pkg --test demo_$lc >/tmp/confirm-$ID.patched.log 2>&1; patched_rc=$?
 compile_err=$(grep -c "^error\[E\|could not compile" /tmp/confirm-$ID.patched.log)
 demo_result=$(grep -E "^test result" /tmp/confirm-$ID.patched.log | tail -1 | tr -d '"')
